@@ -131,7 +131,13 @@ let run_run (args : (string * string) list) : string =
     (* correspondence *)
     (match llp_combine_labels (family args stored) with
      | None -> add "combined" "FAIL(model:refuse)"
-     | Some r -> add "combined" (if r = combined then "ok" else "FAIL(model:" ^ short (str_nl r) ^ ")"));
+     | Some r ->
+       (* as in run_comb: any order of labelings of equal cost is accepted *)
+       let order = ints_of_string (get args "order") in
+       let some_order = r = combined || List.exists (fun o ->
+           match llp_combine_labels (family_in args stored o) with Some r' -> r' = combined | None -> false)
+           (alt_orders order) in
+       add "combined" (if some_order then "ok" else "FAIL(model:" ^ short (str_nl r) ^ ")"));
     let mr = labels_to_ranks combined in
     add "ranks" (if mr = ranks then "ok" else "FAIL(model:" ^ short (str_nl mr) ^ ")");
     let mpg = permute_graph ranks g in
